@@ -9,6 +9,7 @@ CONSTANTS
   HintNames = {"d", "d1", "fmt", "."}
   BodyPool <- BodyRefs
   FragPool <- NoFrags
+  FileMeta <- Meta0
   Preambles <- Pre0
   MaxOps = 4
   MaxBody = 3
